@@ -37,6 +37,9 @@ class StringParameter(Parameter):
         super(StringParameter, self).__init__(**kwargs)
 
     def clean(self, value, program=None, lineno=None):
+        if isinstance(value, (list, tuple, dict)):
+            raise ParameterNotValid(value, "String", lineno)
+
         return six.text_type(value)
 
     @staticmethod
